@@ -20,6 +20,21 @@ from ref import cfg as R
 BATCH = 256
 
 
+def extra_plans(ctx, kinds_hist="GIKSA"):
+    """Plans shared by C10 / C11 (C40 has its own variants): two same-kind switches on ONE payload, a payload table in
+    the middle of the code, and the set_instructions() history family."""
+    p = [{"id": "shared-n2", "n": 2, "kinds": "PTRXGIKS", "shared": "only"},
+         {"id": "shared-n3", "n": 3, "kinds": "TGIKS" if not ctx.thorough else "PTRXGIKS", "shared": "only"},
+         {"id": "mid-n1", "n": 1, "kinds": "PTRXGIKS", "layouts": ("mid",)},
+         {"id": "mid-n2", "n": 2, "kinds": "PTRXGIKS", "layouts": ("mid",)},
+         {"id": "mid-n3", "n": 3, "kinds": "TGIK" if not ctx.thorough else "PTRXGIKS", "layouts": ("mid",)},
+         {"id": "hist-n1", "n": 1, "kinds": kinds_hist, "history": M.EDITS},
+         {"id": "hist-n2", "n": 2, "kinds": kinds_hist, "history": M.EDITS}]
+    if ctx.thorough:
+        p.append({"id": "hist-n3", "n": 3, "kinds": "GIKA", "history": M.EDITS})
+    return p
+
+
 # --------------------------------------------------------------------------------------------------- androguard side
 def load(raw, xref=False):
     from androguard.core import dex
@@ -100,7 +115,7 @@ def plan_size(plan):
     tt = _try_tables(plan)
     if tt is not None:
         per = len(tt)
-    per *= len(plan.get("layouts", ("aligned",))) * (1 + len(plan.get("orphans", ())))
+    per *= len(plan.get("layouts", ("aligned",))) * (1 + len(plan.get("orphans", ()))) * max(1, len(plan.get("history", ())))
     cnt = a ** plan["n"]
     if plan.get("require_bogus"):
         cnt -= len(M.alphabet(plan["n"] + 1, plan["kinds"])) ** plan["n"]
@@ -152,7 +167,9 @@ def enum_plan(plan, i0, r, parts):
             continue
         if need_bogus and not any(x[0] in M.BOGUS for x in sk):
             continue
-        if plan.get("shared"):
+        if plan.get("shared") == "only":
+            variants = shared_variants(sk)[1:]
+        elif plan.get("shared"):
             variants = shared_variants(sk)
         else:
             variants = [sk]
@@ -162,7 +179,12 @@ def enum_plan(plan, i0, r, parts):
                     b = M.build(skv, (), lay, orph)
                     if b is None:
                         continue
-                    if tcs is None:
+                    if plan.get("history"):
+                        for e in plan["history"]:
+                            c = M.retry(b, ())
+                            c.edit = e
+                            yield c
+                    elif tcs is None:
                         yield b
                     else:
                         for tries, share in tcs:
@@ -207,6 +229,36 @@ def _judge_one(mod, acc, b, ma, em):
     return viol
 
 
+def _judge_history(mod, acc, b, vm, em):
+    from androguard.core import dex
+    from androguard.core.analysis.analysis import MethodAnalysis
+    want, pos, n = M.edited_code(b, b.edit)
+    ins = list(em.get_instructions())
+    new = ins[:pos] + [dex.Instruction10x(vm.CM, b"\x00\x00") for _ in range(n)] + ins[pos:]
+    em.set_instructions(new)
+    raw = bytes(em.get_code().get_bc().get_raw())
+    if raw != want:
+        acc.harness_error("edit %s of %r: raw code after set_instructions is %s, expected %s"
+                          % (b.edit, b.witness(), raw.hex(), want.hex()))
+        return []
+    rm = R.from_bytes(raw)
+    acc.n += 1
+    acc.nt_disjoint += 1
+    acc.count("histories[%s]" % b.edit)
+    layout = b.layout
+    if any(i[2] == "payload" and i[0] % 4 == 2 for i in rm.ins):
+        layout = "misaligned"
+    if getattr(mod, "HISTORY_SKIP_UNALIGNED", False) and \
+            any(i[2] == "switch" and i[4] is not None and i[4] % 4 == 2 for i in rm.ins):
+        acc.count("histories_unaligned_switch_offset_not_judged")      # nop-skip domain of determineNext (not well-formed)
+        return []
+    ma2 = MethodAnalysis(vm, em)
+    obs = observe(ma2, em, special=getattr(mod, "SPECIAL", False))
+    if len(acc.outcomes) < 100000:
+        acc.outcomes.add(h8(("h", b.edit, signature(obs))))
+    return [(key + ":after:set_instructions", msg) for key, msg in mod.judge(acc, rm, obs, layout, ma=ma2, gen=True)]
+
+
 class _FakePool:
     def string(self, s): return 0
     def type(self, t): return 0
@@ -239,6 +291,18 @@ def run_batch(mod, acc, builts):
         for key, k, msg in mod.judge_xrefs(acc, dx, ems, builts):
             b = builts[k]
             acc.violation(key, b.witness(), "%s\n  method: %s" % (msg, describe(b)))
+
+    # history family: ONE edit through set_instructions() on the SAME EncodedMethod, then a NEW MethodAnalysis
+    for k, b in enumerate(builts):
+        if getattr(b, "edit", None):
+            em = ems[(M.CLS, M.method_name(k), "()V")]
+            try:
+                res = _judge_history(mod, acc, b, vm, em)
+            except Exception as e:      # noqa
+                res = [("analysis-raises:%s:after:set_instructions" % type(e).__name__, "%s: %s" % (type(e).__name__, e))]
+            for key, msg in res:
+                acc.violation(key, b.witness(), "%s\n  method: %s, then edit %s via set_instructions and a new MethodAnalysis"
+                              % (msg, describe(b), b.edit))
 
 
 def describe(b):
